@@ -101,6 +101,7 @@ func init() {
 const c16Shards = 4
 
 func runC16(ctx *core.Ctx, unit int) {
+	vsched.ResetGlobals() // records the initial package-level state on its first call
 	nt := len(c16ThreadScenarios) * c16Shards
 	switch {
 	case unit < nt:
